@@ -9,7 +9,7 @@
  *   pchild touch PATH                create PATH, exit 0
  *   pchild gate FIFO [ignore-int]    (ignore SIGINT,) print "ready\n", block opening FIFO for reading, read to EOF, exit 0
  *   pchild release-then-more N       lane-release handshake on LLBUILD_CONTROL_FD (if set), then N stdout bytes, exit 0
- *   pchild release-then-gate FIFO    handshake, print "ready\n", then as gate
+ *   pchild release-then-gate FIFO [ignore-int]   (ignore SIGINT,) handshake, print "ready\n", then as gate
  *   pchild release-bad KIND N        KIND = wrong-id | bad-version | overlong : a broken handshake, then N stdout bytes, exit 0
  *
  * byte i of stdout = code(i) & 0x7f, byte i of stderr = 0x80 | (code(i) & 0x7f)  (see code()).
@@ -165,6 +165,7 @@ int main(int argc, char** argv) {
     _exit(0);
   }
   if (!strcmp(m, "release-then-gate") && argc >= 3) {
+    if (argc >= 4 && !strcmp(argv[3], "ignore-int")) signal(SIGINT, SIG_IGN);
     handshake(0);
     writeAll(1, (const unsigned char*)"ready\n", 6);
     gate(argv[2]);
